@@ -26,6 +26,14 @@ def build(u):
     u.prelude('stack_env.rs')
     weave_readonly(u, u4)
     weave_stack(u, u4)
+    # T15: helpers without a contract that code under contract calls are inlined when mechanically possible
+    world_fns = set()
+    for v in u.fns:
+        if any(ch.text.strip().endswith('Tracked(w): Tracked<&mut World>') for ch in v.chunks if v.ct[v.lo][2] <= ch.pos <= v.ct[v.hi][3]):
+            world_fns.add(v.item.name)
+    world_fns -= {'new', 'doit', 'run'}
+    table = list(u4.WORLD_CALLEES) + ['. ' + n for n in sorted(world_fns)] + sorted(world_fns)
+    u.inline_new_helpers(table)
     u4.thread_all(u)
     return u
 
@@ -313,7 +321,7 @@ def weave_stack(u, u4):
     from weave import Repl
     u.text('pub mod stack {\n' + u4.MOD_HEAD + 'use crate::std::fs::File;\nuse crate::plain::Cache as PlainCache;\nuse crate::sharded::Cache as ShardedCache;\n'
            'use crate::Key;\nuse crate::Arc;\nuse crate::cache_dir::CacheDir;\nuse crate::cache_dir::*;\nuse crate::sharded::*;\nuse crate::readonly::*;\nuse crate::readonly::ReadOnlyCache;\n'
-           'use crate::ConsistencyChecker;\n')
+           'use crate::ConsistencyChecker;\nuse crate::DocumentedPanic;\n')
     BAD = '(!first_byte_ok(str_bytes(key.name)) || str_bytes(key.name).contains(0x2fu8))'
     t = u.item('src/stack.rs', ['trait FullCache'])
     t.insert_before('trait FullCache', 'pub ')   # T9: visibility only
@@ -619,9 +627,10 @@ pub open spec fn read_copies_accepted(rs: ReadOnlyCache, links: Map<PathV, Inode
     ms = u.under_contract(im.sub(['fn maybe_sync_path']), ['C03', 'C18', 'C15', 'C05'])
     ms.air = 'stack::Cache::maybe_sync_path'
     ms.add_param(W)
-    ms.replace('. sync_all ( ) . expect (', '.sync_all_or_panic(', 'T2-documented-panic')
-    ms.insert_after('. expect ( "auto_sync failed, and failure semantics are unclear for fsync"', ', Tracked(w)')
-    u.dropped.append('T2 (documented panic): `.sync_all().expect(msg)` in Cache::maybe_sync_path is rebound to File::sync_all_or_panic(msg), which returns only if the flush succeeded')
+    ms.replace('. expect ( "auto_sync failed, and failure semantics are unclear for fsync" )',
+               '.expect_or_documented_panic("auto_sync failed, and failure semantics are unclear for fsync")', 'T2-documented-panic')
+    u.dropped.append('T2 (documented panic): `.expect("auto_sync failed, ...")` in Cache::maybe_sync_path is rebound to DocumentedPanic::expect_or_documented_panic, '
+                     'which returns only if the flush result is Ok (the documented panic otherwise)')
     ms.contract(requires=[('', 'old(w).inv()')],
                 ensures=[INV, ('', 'final(w).kept(*old(w)) && final(w).listed == old(w).listed && final(w).published == old(w).published && final(w).now == old(w).now'),
                          ('C03:with-auto-sync-the-file-is-flushed-before-anything-else-happens',
@@ -855,8 +864,8 @@ pub fn opt_arc_as_ref<T: ?Sized>(o: &Option<Arc<T>>) -> (r: Option<&T>)
                     '            }')
     pr.insert_after('std :: io :: copy ( & mut file , tmp . as_file_mut ( ) ) ? ;',
                     '\n            proof { crate::std::io::lemma_copied_whole(w2.inodes[file.ino()].content); assert(w2.inodes.contains_key(file.ino())); assert(file.ino() != tmp.ino()); assert(w.inodes.contains_key(file.ino())); assert(w2.inodes[file.ino()].content == old(w).inodes[file.ino()].content); assert(w.inodes[file.ino()].content == w2.inodes[file.ino()].content); }')
-    pr.insert_before('cache . put ( key , & path ) ? ;',
-                     'proof {\n'
+    pr.insert_after('let path = finalize_tempfile ( tmp , sync ) ? ;',
+                     '\n            proof {\n'
                      '                let pth = path.pathv();\n'
                      '                assert(pth == tmp_path);\n'
                      '                assert(w.owned.contains(pth));\n'
@@ -867,7 +876,7 @@ pub fn opt_arc_as_ref<T: ?Sized>(o: &Option<Arc<T>>) -> (r: Option<&T>)
                      '                assert(w.supplied.contains((%s, w.inode_at(pth).content)));\n'
                      '                assert(w.must_sync ==> w.inode_at(pth).synced);\n'
                      '                assert(forall|q: PathV| #[trigger] w.files.contains_key(q) && w.files[q] == w.files[pth] ==> !w.in_cache_namespace(q));\n'
-                     '            }\n            ' % NAME)
+                     '            }' % NAME)
     # ---- the contract of get_or_update itself ----------------------------------------------------------
     WS = 'self.writer().unwrap()'
     RS = 'self.readers()'
